@@ -20,7 +20,8 @@ import (
 //   - an interruption ends phases 1-4 at once.
 //
 // It returns the expected observables and the kinds of directives that took effect.
-func specRun(on bool, rules []ruleJ, req []bool) (*obsJ, []string) {
+func specRun(engine string, rules []ruleJ, req []bool) (*obsJ, []string) {
+	mode := engine // the transaction's current mode; ctl:ruleEngine of a matching link changes it
 	o := &obsJ{Evaluated: make([][]int, 5), Matched: make([][]int, 5)}
 	for i := 0; i < 5; i++ {
 		o.Evaluated[i], o.Matched[i] = []int{}, []int{}
@@ -41,6 +42,9 @@ func specRun(on bool, rules []ruleJ, req []bool) (*obsJ, []string) {
 	}
 	matches := func(l linkJ) bool { return l.Key < 0 || (l.Key < len(req) && req[l.Key]) }
 	for p := 1; p <= 5; p++ {
+		if mode == "Off" {
+			break // nothing is evaluated any more, not even the logging phase
+		}
 		if p < 5 && o.Intr != nil {
 			continue
 		}
@@ -82,6 +86,12 @@ func specRun(on bool, rules []ruleJ, req []bool) (*obsJ, []string) {
 					for _, id := range l.Rm {
 						removed[id] = true
 					}
+					if l.Eng != "" {
+						if l.Eng != mode {
+							kinds = append(kinds, "ctl-engine:"+mode+"->"+l.Eng)
+						}
+						mode = l.Eng
+					}
 				}
 				if !all {
 					if len(r.Links) > 1 && len(r.Acts) > 0 && matches(r.Links[0]) {
@@ -102,24 +112,33 @@ func specRun(on bool, rules []ruleJ, req []bool) (*obsJ, []string) {
 					case "skipAfter":
 						after, haveAfter = a.M, true
 					case "allow":
-						if on {
+						if mode == "On" {
 							allow = a.Scope
 							if allow == "" {
 								allow = "all"
 							}
 							kinds = append(kinds, "allow:"+allow+fmt.Sprintf("@%d", p))
+							if engine != "On" {
+								kinds = append(kinds, "allow-enforced-after-switch-to-On")
+							}
 						} else {
-							kinds = append(kinds, "allow-detectiononly")
+							kinds = append(kinds, "allow-not-enforced-configured-"+engine+"-current-"+mode)
 						}
 					case "deny":
-						if on {
+						switch mode {
+						case "On":
 							if o.Intr == nil {
 								o.Intr = []int{p, r.ID}
 							}
-						} else if o.DIntr == nil {
-							o.DIntr = []int{p, r.ID}
+						case "DetectionOnly":
+							if o.DIntr == nil {
+								o.DIntr = []int{p, r.ID}
+							}
 						}
 						kinds = append(kinds, "deny")
+						if mode == "On" && (skipN > 0 || haveAfter || hasFlowLater(r.Acts)) {
+							kinds = append(kinds, "deny-with-skip-state")
+						}
 					}
 				}
 				if haveAfter {
@@ -179,6 +198,15 @@ func specRun(on bool, rules []ruleJ, req []bool) (*obsJ, []string) {
 		}
 	}
 	return o, kinds
+}
+
+func hasFlowLater(acts []actJ) bool {
+	for _, a := range acts {
+		if a.A == "skip" || a.A == "skipAfter" {
+			return true
+		}
+	}
+	return false
 }
 
 func classify(dist vh.Counter, set ruleSet, want *obsJ, kinds []string) {
